@@ -70,7 +70,9 @@ func realPrint(f *filter.Filter) (s string, err error, panicked any) {
 var (
 	coreNames = []string{"a", "b", "x y"}
 	coreVals  = []string{"", "a", "ab"}
-	wideNames = []string{"a", "b", "ab", "_", "é", "", "x y", "AND", "attributes", "NOT", "hasPrefix", "a.b", "a\"b", "0a", "日本"}
+	// (the lower- and mixed-case look-alikes of the keywords are ordinary names:
+	// keywords are case sensitive)
+	wideNames = []string{"a", "b", "ab", "_", "é", "", "x y", "AND", "attributes", "NOT", "hasPrefix", "a.b", "a\"b", "0a", "日本", "and", "or", "not", "Not", "oR", "hasprefix", "Attributes", "A"}
 	wideVals  = []string{"", "a", "ab", "b", "é", "\n", "\"", "\\", "a b", "\u0000", "😀"}
 )
 
@@ -224,6 +226,13 @@ func TestC07(t *testing.T) {
 				n = &c
 			}
 			maps := attrMaps([]string{b.Name}, wideVals)
+			// and maps that carry only a differently-cased spelling of the name: a
+			// name is matched exactly
+			for _, alt := range []string{strings.ToUpper(b.Name), strings.ToLower(b.Name)} {
+				if alt != b.Name {
+					maps = append(maps, attrMaps([]string{alt}, []string{"", "a", "ab"})...)
+				}
+			}
 			for _, txt := range renderings(n, r) {
 				if checkSemantics(col, n, txt, maps, st) {
 					col.Case(evd.FP("wide", txt), true)
